@@ -31,6 +31,7 @@ import (
 	"os/exec"
 	"path/filepath"
 	"runtime"
+	"runtime/debug"
 	"sort"
 	"strconv"
 	"strings"
@@ -237,6 +238,7 @@ func loadCorpus() {
 				corpusList = append(corpusList, corpusEntry{e.Name(), d})
 			}
 		}
+		corpusList = append(corpusList, objStmCorpus()...)
 		for i, d := range bases {
 			vs := objStmVariants(fmt.Sprintf("base%d", i), d)
 			corpusList = append(corpusList, vs...)
@@ -349,6 +351,8 @@ func memGuard(limit uint64, onExceed func(heap uint64)) {
 }
 
 func runWorker(e *common.Env, k, w, from int, outPath string) {
+	// unbounded recursion should die quickly and cheaply (the default limit is 1 GB)
+	debug.SetMaxStack(128 << 20)
 	p := plan(e)
 	out, err := os.OpenFile(outPath, os.O_APPEND|os.O_CREATE|os.O_WRONLY, 0o644)
 	if err != nil {
@@ -444,6 +448,7 @@ func runWorker(e *common.Env, k, w, from int, outPath string) {
 
 // runOne re-runs a single suspected case in a fresh process (confirmation).
 func runOne(e *common.Env, idx int) {
+	debug.SetMaxStack(128 << 20)
 	p := plan(e)
 	it := p[idx]
 	l := &workerLine{}
@@ -555,9 +560,12 @@ func main() {
 			outPath := filepath.Join(e.Dir, fmt.Sprintf("worker-%d.jsonl", k))
 			os.Remove(outPath)
 			from := 0
-			for restarts := 0; restarts < 3; restarts++ {
+			// a hang costs the watchdog's 10 s, a crash costs nothing: tolerate
+			// few of the former and many of the latter before giving up
+			slowRestarts, crashRestarts := 0, 0
+			for slowRestarts < 3 && crashRestarts < 60 {
 				cmd := exec.Command(self, "-dir", e.Dir, "-worker", strconv.Itoa(k), strconv.Itoa(nw), strconv.Itoa(from), outPath)
-				cmd.Stderr = os.Stderr
+				// a fatal trace is long; the confirmation run captures it again
 				err := cmd.Run()
 				if err == nil {
 					return
@@ -571,14 +579,19 @@ func main() {
 						last = l.Idx
 					}
 				}
-				if len(ls) > 0 && ls[len(ls)-1].Status != "timeout" && ls[len(ls)-1].Status != "alloc" {
+				if len(ls) == 0 || (ls[len(ls)-1].Status != "timeout" && ls[len(ls)-1].Status != "alloc") {
+					crashRestarts++
+				} else {
+					slowRestarts++
+				}
+				if len(ls) == 0 || (ls[len(ls)-1].Status != "timeout" && ls[len(ls)-1].Status != "alloc") {
 					// crashed without reporting: blame the next case of this worker
 					next := last + 1
 					for next%nw != k {
 						next++
 					}
 					if next < len(p) {
-						f, _ := os.OpenFile(outPath, os.O_APPEND|os.O_WRONLY, 0o644)
+						f, _ := os.OpenFile(outPath, os.O_APPEND|os.O_CREATE|os.O_WRONLY, 0o644)
 						l := workerLine{Label: "worker crashed: " + err.Error()}
 						l.Idx, l.Kind, l.Status = next, p[next].Kind, "crash"
 						b, _ := json.Marshal(l)
@@ -692,7 +705,38 @@ func main() {
 			}
 			confirmed[sig]++
 		case "crash":
-			e.Fail("worker-crash", "the worker process died while running this case: "+l.Label, failCase(e, l))
+			// a fatal error (stack overflow, out of memory ...) cannot be recovered
+			// in-process: run the case alone and look at how the process dies
+			if confirmed["fatal"] >= 3 {
+				continue
+			}
+			cmd := exec.Command(self, "-dir", e.Dir, "-one", strconv.Itoa(l.Idx))
+			var stderr bytes.Buffer
+			cmd.Stderr = &stderr
+			_, err := cmd.Output()
+			if err == nil {
+				unconfirmed++
+				continue
+			}
+			confirmed["fatal"]++
+			first := strings.SplitN(strings.TrimSpace(stderr.String()), "\n", 2)[0]
+			sig := "fatal-crash"
+			switch {
+			case strings.Contains(stderr.String(), "stack overflow") || strings.Contains(stderr.String(), "stack exceeds"):
+				sig = "fatal-crash:stack-overflow"
+			case strings.Contains(stderr.String(), "out of memory"):
+				sig = "fatal-crash:out-of-memory"
+			}
+			l.Stack = fatalFrames(stderr.String())
+			if l.File == "" {
+				if d, _ := caseBytes(p[l.Idx], l.Idx); d != nil {
+					l.File = filepath.Join(e.Dir, fmt.Sprintf("suspect-%d.pdf", l.Idx))
+					os.WriteFile(l.File, d, 0o644)
+					l.Len = len(d)
+				}
+			}
+			l.Label = p[l.Idx].Label
+			e.Fail(sig, "the process died (not a recoverable panic): "+trunc(first, 200), failCase(e, l))
 		default: // timeout, leak, slow, alloc: measured facts, confirm before reporting
 			sig := map[string]string{"timeout": "hang", "leak": "goroutine-leak", "slow": "slow", "alloc": "alloc-over-budget"}[l.Status]
 			if l.Case != "" {
@@ -742,6 +786,20 @@ func main() {
 			"budget_alloc":             "TotalAlloc <= 512 MiB + 16 KiB per input byte; heap guard 4 GiB",
 			"measured_not_proved":      "wall time, allocation and goroutine counts are measurements on the implementation, not theorems",
 		})
+}
+
+// fatalFrames picks the repeating part of a fatal stack trace.
+func fatalFrames(tr string) string {
+	var out []string
+	for _, ln := range strings.Split(tr, "\n") {
+		if strings.HasPrefix(ln, "seehuhn.de/go/pdf") || strings.HasPrefix(ln, "main.") {
+			out = append(out, ln)
+			if len(out) >= 14 {
+				break
+			}
+		}
+	}
+	return strings.Join(out, "\n")
 }
 
 func trunc(s string, n int) string {
